@@ -834,6 +834,10 @@ impl<C: Ctxt> Ctxt for TraceparentCtxt<C> {
         let (slot, props) =
             incoming_traceparent(None::<fn(&SpanCtxt) -> bool>, props, TraceFlags::ALL);
 
+        // If the props don't start a new span then carry the active traceparent with the frame
+        // That way a frame that's entered on another thread or task continues the same trace
+        let slot = slot.or_else(get_active_traceparent);
+
         let inner = self.inner.open_push(props);
 
         TraceparentCtxtFrame {
